@@ -1,6 +1,6 @@
 """C04 x86-64 JIT-compiled programs behave exactly like interpreted programs."""
 import astq
-from rules import aes, genreset, jit, sshash, vmcfg, x86hsem
+from rules import aes, cgsize, genreset, jit, sshash, vmcfg, x86hsem
 
 LEVEL = 'other'
 TECHNIQUE = ('sibling agreement between the x86 emitters and the interpreter decoder on resolved-AST feature vectors, known-bits on branch constants, decoding of byte templates, assembled-fragment constants'
@@ -42,3 +42,4 @@ def run(ctx, R):
     jit.rule_lw_value(ctx, R, 'x86')
     x86hsem.rule_fp_hsem(ctx, R)
     x86hsem.rule_cbranch(ctx, R)
+    cgsize.rule_x86(ctx, R, FI)    # the program area holds the largest program: an overflow would overwrite the SuperscalarHash routine the light-mode loop calls
